@@ -249,6 +249,47 @@ def run_case(case):
         if np.abs(ned_default - exp).max() > 2.0 * 760.0 ** 2 / 6.3e6 * (1 + abs(np.tan(lat))) + 1e-6:
             v('c16-first-order:perturb-vs-ned', 'lla_to_ned of perturbed points differs from the perturbations by %.3e m'
               % np.abs(ned_default - exp).max())
+    # ------------------------------------------------------------- stacks of exactly one point
+    # (a stack of one is still a stack: shape (1, ...), values of the scalar call)
+    a1 = 250.0
+    one = [('mat_en_from_ll', transform.mat_en_from_ll([lat_d], [lon_d]), transform.mat_en_from_ll(lat_d, lon_d)),
+           ('rate_n', earth.rate_n([lat_d]), earth.rate_n(lat_d)),
+           ('gravity', earth.gravity([lat_d], [a1]), earth.gravity(lat_d, a1)),
+           ('gravity_n', earth.gravity_n([lat_d], [a1]), earth.gravity_n(lat_d, a1)),
+           ('curvature_matrix', earth.curvature_matrix([lat_d], [a1]), earth.curvature_matrix(lat_d, a1)),
+           ('gravitation_ecef', earth.gravitation_ecef([[lat_d, lon_d, a1]]), earth.gravitation_ecef([lat_d, lon_d, a1])),
+           ('lla_to_ecef', transform.lla_to_ecef([[lat_d, lon_d, a1]]), transform.lla_to_ecef([lat_d, lon_d, a1])),
+           ('ecef_to_lla', transform.ecef_to_lla(np.array([geo.lla2ecef(lat, lon, a1)])),
+            transform.ecef_to_lla(geo.lla2ecef(lat, lon, a1))),
+           ('perturb_lla', transform.perturb_lla([[lat_d, lon_d, a1]], [[10.0, -20.0, 5.0]]),
+            transform.perturb_lla([lat_d, lon_d, a1], [10.0, -20.0, 5.0])),
+           ('compute_lla_difference', transform.compute_lla_difference([[lat_d, lon_d, a1]], [[lat_d, lon_d, a1 - 9.0]]),
+            transform.compute_lla_difference([lat_d, lon_d, a1], [lat_d, lon_d, a1 - 9.0]))]
+    one += [('principal_radii[%d]' % i_, s_, x_) for i_, (s_, x_) in
+            enumerate(zip(earth.principal_radii([lat_d], [a1]), earth.principal_radii(lat_d, a1)))]
+    for name_, st_, sc_ in one:
+        st_, sc_ = np.asarray(st_, dtype=float), np.asarray(sc_, dtype=float)
+        if st_.shape != (1,) + sc_.shape:
+            v('c16-forms-one-element-stack', '%s of a one-element stack has shape %r, the scalar call %r'
+              % (name_, st_.shape, sc_.shape))
+        elif np.abs(st_[0] - sc_).max() > 4 * EPS * (1 + np.abs(sc_).max()):
+            v('c16-forms-one-element-stack', '%s of a one-element stack differs from the scalar call at (%r, %r)'
+              % (name_, lat_d, lon_d))
+    # ------------------------------------------------------------- ECEF points exactly on the coordinate planes
+    # lla_to_ecef(lon = 180) leaves y ~ 1e-9 m because sin(pi) != 0 in floating point; a position computed in ECEF
+    # can have y == 0 (or -0.0) exactly.  Longitude must come out as 0 / +-180 / +-90, latitude and altitude unchanged.
+    if lon_d in (-180.0, -90.0, 0.0, 90.0, 180.0) and abs(lat_d) < 89.99:
+        for alt in (0.0, 9000.0):
+            r_ref = geo.lla2ecef(lat, lon, alt)
+            for zero in (0.0, -0.0):
+                r0 = r_ref.copy()
+                r0[1 if lon_d in (-180.0, 0.0, 180.0) else 0] = zero
+                n_pts += 1
+                for form, back in (('single', transform.ecef_to_lla(r0)), ('stacked', transform.ecef_to_lla(np.array([r0, r0]))[1])):
+                    dlon = abs(((back[1] - lon_d + 180.0) % 360.0) - 180.0)
+                    if not np.isfinite(back).all() or dlon > 1e-9 or abs(back[0] - lat_d) > 1e-9 or abs(back[2] - alt) > 1e-6:
+                        v('c16-ecef-on-coordinate-plane', 'ecef_to_lla(%r) [%s] = %r, expected (%r, %r, %r)'
+                          % (r0.tolist(), form, back.tolist(), lat_d, lon_d, alt))
     first = {}
     for x in viol:
         first.setdefault(x['sig'], x)
